@@ -1636,6 +1636,10 @@ func (s *State) runGhost(fr *Frame, anchor string) {
 		switch g.Kind {
 		case "assert":
 			t, err := env.evalBool(g.E)
+			if err != nil && strings.Contains(err.Error(), "unknown identifier") {
+				s.oblige("assert@"+sanitize(anchor), g.Src+" ("+err.Error()+")", fmt.Sprintf("%s:%d", g.File, g.Line), "false")
+				continue
+			}
 			if err != nil {
 				panic(evalErr(fmt.Sprintf("%s:%d: %v", g.File, g.Line, err)))
 			}
@@ -1653,6 +1657,15 @@ func (s *State) runGhost(fr *Frame, anchor string) {
 			c.addObl(s, &Obligation{Name: fmt.Sprintf("%s/vac-assume@%s", c.Key, sanitize(anchor)), Kind: "vac", Func: c.Key, Desc: "assumptions still satisfiable after `assume " + g.Src + "`", Pos: fmt.Sprintf("%s:%d", g.File, g.Line), Path: s.Path, Before: before, Goal: "false", ExpectSat: true, PathID: s.PathID})
 		case "set":
 			v, err := env.evalAny(g.E)
+			if err != nil && strings.Contains(err.Error(), "unknown identifier") {
+				// the code no longer has a local this ghost statement names: the ghost variable becomes arbitrary and
+				// the mismatch is reported as a failed obligation (not as an undecided check)
+				if old, ok := s.Ghost[g.Var]; ok {
+					s.Ghost[g.Var] = TV{T: s.freshConst("g_"+g.Var, old.Sort), Sort: old.Sort, Ty: old.Ty}
+				}
+				s.oblige("ghost-bind@"+sanitize(anchor), "ghost statement `set "+g.Var+" = "+g.Src+"` can be evaluated ("+err.Error()+")", fmt.Sprintf("%s:%d", g.File, g.Line), "false")
+				continue
+			}
 			if err != nil {
 				panic(evalErr(fmt.Sprintf("%s:%d: %v", g.File, g.Line, err)))
 			}
